@@ -69,11 +69,19 @@ def tagsErr (tags : List TagEntry) : Option Err :=
   else if tags.any (fun e => e.path.any badKey) then some .key
   else none
 
+/-- ctx.SetLinkedIds("groups", …) = LinkCollection.SetLinks: a target that is to be linked and has no entity
+    bucket in the linked store makes LinkedSetSymbol.AddLink fail with a not-found error (after the
+    forward entry was written) -/
+def linksErr (links : List String) : Option Err :=
+  if links.any (fun t => !qIds.contains t) then some .linkMissing else none
+
 /-- what the typed-bucket setters called by the parent strategy's PersistEntity record for the VALUE of
     the entity (no injection): name, ref, roles — a role whose list key (type byte + value) exceeds
-    bbolt's key size is refused by `Put` — then tags; the first error wins (ProceedWithSet) -/
+    bbolt's key size is refused by `Put` — then tags, then the linked ids; the first error wins
+    (ProceedWithSet) -/
 def valueErr (f : PFields) : Option Err :=
-  (if f.roles.any (fun r => r.utf8ByteSize + 1 > maxKeySize) then some Err.key else none).or (tagsErr f.tags)
+  ((if f.roles.any (fun r => r.utf8ByteSize + 1 > maxKeySize) then some Err.key else none).or (tagsErr f.tags)).or
+    (linksErr f.links)
 
 /-- PersistEntity into the entity bucket: (counters, error recorded in the bucket's holder). -/
 def persist (fault : Fault) (σ : StoreId) (c : Cnt) (f : PFields) : Cnt × Option Err :=
@@ -566,6 +574,22 @@ def deleteWhere (env : Env) (fault : Fault) (σ : StoreId) (q : Query) (st : TxS
     | .ret r => (st.raise .parse, r)
     | .cont => (st.raise .parse, .ok)
   | _ => deleteLoop env fault σ (matching σ q st.db) Cnt.zero st
+
+/-- AddLinks / RemoveLinks / SetLinks on the link collection things.groups, called by the transaction
+    function: the entity must have a bucket; a target that is to be linked must exist in the linked store
+    (unlinking a missing target is no error).  Returns the error and the database. -/
+def linkStep (op : LinkOp) (id : String) (targets : List String) (db : Db) : Option Err × Db :=
+  match db.get id with
+  | none => (some .notFound, db)
+  | some e =>
+    match op with
+    | .remove => (none, db.put id { e with f := { e.f with links := e.f.links.filter fun t => !targets.contains t } })
+    | .add =>
+      if targets.any (fun t => !qIds.contains t) then (some .linkMissing, db)
+      else (none, db.put id { e with f := { e.f with links := normRoles (e.f.links ++ targets) } })
+    | .set =>
+      if targets.any (fun t => !qIds.contains t) then (some .linkMissing, db)
+      else (none, db.put id { e with f := { e.f with links := normRoles targets } })
 
 def runOp (env : Env) (fault : Fault) (o : Op) (st : TxSt) : TxSt × Res :=
   match o with
